@@ -4,8 +4,8 @@
 int main(int argc, char **argv) {
     vf::opts o(argc, argv);
     vf::install_crash_handler();
-    RUN("lqueue_exhaustive", 1, false, scn::lqueue_exhaustive(o, R, (int)o.get("maxlen", 7)));
-    RUN("lqueue_history", 1, false, scn::queue_history<true>(o, R, o.cases));
+    RUN("lqueue_exhaustive", 1, true, scn::lqueue_exhaustive(o, R, (int)o.get("maxlen", 7)));
+    RUN("lqueue_history", 1, true, scn::queue_history<true>(o, R, o.cases));
     RUN("lqueue_mt", o.threads, true, scn::queue_mt<true>(o, R, T, o.cases));
     return 0;
 }
